@@ -58,17 +58,22 @@ RowsInto(p, vals, op) ==
       Sum(S) == IF S = {} THEN 0 ELSE LET j == CHOOSE x \in S : TRUE IN Len(vals[p.nodes[j].in[1] + 1].all) + Sum(S \ {j})
   IN Sum(idx)
 
+RECURSIVE SeqOfSet2(_)
+SeqOfSet2(S) == IF S = {} THEN <<>> ELSE LET m == CHOOSE x \in S : TRUE IN <<m>> \o SeqOfSet2(S \ {m})
+
 Fail(r, ev, what, detail) == [id |-> r.id, exec |-> r.exec, seq |-> ev.seq, do |-> ev.do, what |-> what, detail |-> detail]
 
 Init == s = 1 /\ i = 0 /\ env = <<>> /\ gone = {} /\ bad = <<>> /\ nj = 0 /\ nvals = <<>>
 
 ArgVals(ev) == [k \in DOMAIN ev.args |-> env[ev.args[k]].v]
-ArgDeps(ev) == UNION {{ev.args[k]} \cup env[ev.args[k]].deps : k \in DOMAIN ev.args}
+\* results the program actually uses (its arg nodes), with everything they were built from
+UsedArgs(ev) == {ev.args[ev.prog.nodes[n].arg + 1] : n \in {m \in DOMAIN ev.prog.nodes : ev.prog.nodes[m].op = "arg"}}
+ArgDeps(ev) == UNION {{a} \cup env[a].deps : a \in UsedArgs(ev)}
 
 JudgeRun(r, ev) ==
-  IF Has(ev, "skipped") THEN [fails |-> <<>>, bind |-> FALSE, v |-> 0]
-  ELSE IF Has(ev, "panic") THEN [fails |-> <<Fail(r, ev, "RunPanicked", ev.panic)>>, bind |-> FALSE, v |-> 0]
-  ELSE IF ev.err # "" THEN [fails |-> <<Fail(r, ev, "FailureFreeRunSucceeds", ev.err)>>, bind |-> FALSE, v |-> 0]
+  IF Has(ev, "skipped") THEN [fails |-> <<>>, bind |-> FALSE, v |-> 0, cm |-> 0, cf |-> 0, cok |-> FALSE]
+  ELSE IF Has(ev, "panic") THEN [fails |-> <<Fail(r, ev, "RunPanicked", ev.panic)>>, bind |-> FALSE, v |-> 0, cm |-> 0, cf |-> 0, cok |-> FALSE]
+  ELSE IF ev.err # "" THEN [fails |-> <<Fail(r, ev, "FailureFreeRunSucceeds", ev.err)>>, bind |-> FALSE, v |-> 0, cm |-> 0, cf |-> 0, cok |-> FALSE]
   ELSE
   LET p == ev.prog
       vals == nvals
@@ -86,8 +91,16 @@ JudgeRun(r, ev) ==
       \* counters are compared only for programs in which every node has a single use
       uses(x) == SumSeq([c \in DOMAIN p.nodes |-> Cardinality({k \in DOMAIN p.nodes[c].in : p.nodes[c].in[k] = x - 1})])
       shared == \E x \in DOMAIN p.nodes : uses(x) > 1
-      cntOK == \/ HasOp(p, {"head", "arg", "scan", "cache", "cachepartial", "readcache"}) \/ shared
-               \/ (ev.cnt_map = RowsInto(p, vals, "map") /\ ev.cnt_filter = 2 * RowsInto(p, vals, "filter"))
+      ownOK == ~(HasOp(p, {"head", "scan", "cache", "cachepartial", "readcache"}) \/ shared)
+      depNames == ArgDeps(ev)
+      depsOK == \A d \in depNames : env[d].cok
+      ownMap == RowsInto(p, vals, "map")
+      ownFil == 2 * RowsInto(p, vals, "filter")
+      \* Result.Scope merges the scopes of every task in the result's graph, including the tasks of
+      \* the results it was built from (each once)
+      expMap == ownMap + SumSeq([k \in DOMAIN SeqOfSet2(depNames) |-> env[SeqOfSet2(depNames)[k]].cm])
+      expFil == ownFil + SumSeq([k \in DOMAIN SeqOfSet2(depNames) |-> env[SeqOfSet2(depNames)[k]].cf])
+      cntOK == ~(ownOK /\ depsOK) \/ (ev.cnt_map = expMap /\ ev.cnt_filter = expFil)
       outObs == ObsShards(ev, TapKey(p, p.out), out.n)
       \* pin the result to the rows of its first evaluation when they were observed
       pinned == IF outObs # <<>> /\ Allowed(out, outObs) /\ p.nodes[p.out + 1].op # "scan"
@@ -96,7 +109,7 @@ JudgeRun(r, ev) ==
   IN [fails |-> AllTaps(p.taps)
                \o (IF ev.nshard = out.n THEN <<>> ELSE <<Fail(r, ev, "ShardCount", "")>>)
                \o (IF cntOK THEN <<>> ELSE <<Fail(r, ev, "CountersAreSumOfIncrements", "")>>),
-      bind |-> TRUE, v |-> pinned]
+      bind |-> TRUE, v |-> pinned, cm |-> ownMap, cf |-> ownFil, cok |-> ownOK /\ depsOK]
 
 JudgeScan(r, ev) ==
   IF Has(ev, "skipped") THEN <<>>
@@ -126,7 +139,7 @@ Step ==
         /\ CASE ev.do = "run" ->
                LET jr == JudgeRun(r, ev) IN
                /\ bad' = bad \o jr.fails
-               /\ env' = IF jr.bind THEN [x \in DOMAIN env \cup {ev.as} |-> IF x = ev.as THEN [v |-> jr.v, deps |-> ArgDeps(ev)] ELSE env[x]] ELSE env
+               /\ env' = IF jr.bind THEN [x \in DOMAIN env \cup {ev.as} |-> IF x = ev.as THEN [v |-> jr.v, deps |-> ArgDeps(ev), cm |-> jr.cm, cf |-> jr.cf, cok |-> jr.cok] ELSE env[x]] ELSE env
                /\ gone' = gone
           [] ev.do = "scan" -> bad' = bad \o JudgeScan(r, ev) /\ UNCHANGED <<env, gone>>
           [] ev.do = "discard" -> gone' = (IF Has(ev, "skipped") THEN gone ELSE gone \cup {ev.res} \cup env[ev.res].deps) /\ UNCHANGED <<env, bad>>
